@@ -114,6 +114,15 @@ CHECKS = {
          '7 indent strings incl. empty and mixed; with and without comment capture.',
     note=TRUSTED + 'refjs reading the output; lines starting with a comment or continuing a multi-line token are exempt.',
     design='DESIGN.md section 3, C20'),
+ 'C13': dict(
+    technique='pair monitor (parse with/without capture) + reflective comment audit against the reference scanner\'s comment log + round-trip monitor on pretty_print of the commented tree',
+    level='exploration',
+    text='A comment of each kind (line, block, multi-line, CRLF, empty) is placed between every pair of adjacent tokens of generated programs '
+         '(quick: every 2nd slot) plus random multi-placements: acceptance and tree must not depend on capture; every attached comment must be '
+         'the verbatim source comment at its recorded offset/line/column, in source order, attached once; printing the commented tree and '
+         'parsing the output with capture must give the same tree and the same comment values in traversal order (refjs re-reads the output).',
+    note=TRUSTED + 'refjs scanner comment log; dropped (never captured) source comments are allowed by the documented limitation and only counted.',
+    design='DESIGN.md section 3, C13'),
 }
 
 PENDING = 'monitor planned in DESIGN.md section 3 but not built yet in this round; no claim is made'
